@@ -43,7 +43,9 @@ def post(chk, pairs, stats):
     if b.returncode != 0:
         stats["classes"]["INFO-race-build-unavailable"] = 1
         return
-    lines = [l.split(" => ")[0] for l, _ in pairs][:250]
+    allin = [l.split(" => ")[0] for l, _ in pairs]
+    # first cases (corpus + generated X lines) and a slice of the P lines (PBF scanner goroutines, Geom, CountTags)
+    lines = allin[:200] + [l for l in allin if l.startswith("p ")][:60]
     try:
         r = subprocess.run([out, "impl"], input="\n".join(lines) + "\n", env=dict(env, GORACE="halt_on_error=0"),
                            stdout=subprocess.PIPE, stderr=subprocess.PIPE, text=True, timeout=900)
